@@ -498,8 +498,10 @@ def run(ctx, out):
     sw = sweep_cases([ctx.seed % len(CANONICAL)], limit=12) if ctx.quick else sweep_cases(range(len(CANONICAL)))
     items, _ = run_cases(sw, out, "sweep", sandbox)
     items, unreal = run_cases(directed_cases(), out, "directed", sandbox)
-    if unreal:
+    if unreal and not repaired_switches():
         raise tlc.MachineryError("a directed case did not reach its crash point")
+    if unreal:
+        out.note("%d directed crash points no longer exist in the repaired tree" % unreal)
     out.note("leg C2S: %d chains validated by TLC" % out.traces_validated)
 
 
